@@ -380,6 +380,31 @@ static void emit_lrp(Rng & rng, size_t n, double a, double b, int k, int ns) {
     }
 }
 
+
+// ---- LRP with its parameters changed on the live object: `setAParam` / `setBParam` between updates (the property quantifies over
+// parameter settings; `lrp_row_invariant` is stated per-operation a, b).  `lrpv <comp> n k { a b act res } | row0 k×(row getA getB) ns {u act}`
+static void emit_lrpv(Rng & rng, size_t n, int k, int ns) {
+    reseed();
+    auto par = [&]() { static const double v[] = {0.0, 0.125, 0.25, 0.5, 0.75, 1.0}; return v[rng.below(6)]; };
+    double a = par(), b = par();
+    B::LRPPolicy p(n, a, b);
+    Line ops, out; putRow(out, vecOf(p.getPolicy()));
+    for (int i = 0; i < k; ++i) {
+        const unsigned ch = (unsigned)rng.below(4);
+        if (ch == 0 || ch == 2) { a = par(); p.setAParam(a); }
+        if (ch == 1 || ch == 2) { b = par(); p.setBParam(b); }
+        size_t act = rng.below(n); bool r = rng.coin(1, 3);          // mostly penalties: they are the updates that use b
+        p.stepUpdateP(act, r);
+        ops << a << b << act << r;
+        putRow(out, vecOf(p.getPolicy())); out << p.getAParam() << p.getBParam();
+        std::printf("#stat lrpv_param_change_%s 1\n", ch == 0 ? "a" : ch == 1 ? "b" : ch == 2 ? "both" : "none");
+    }
+    Line l; l << "C09" << "lrpv" << "LRPPolicy" << n << k; l.tok(ops.os.str());
+    l << "|"; l.tok(out.os.str()); l << ns;
+    for (int i = 0; i < ns; ++i) { l << peekU(eng(p)); l << p.sampleAction(); }
+    l.emit();
+}
+
 // ---- WoLF / PGA-APP
 static const char * g_who = "row";
 static void fillRow(Rng & rng, M::QFunction & Q, size_t s) { int E; std::string kind; auto q = genQAny(rng, Q.cols(), E, kind); statQ(g_who, kind); for (long a = 0; a < Q.cols(); ++a) Q(s, a) = q[a]; }
@@ -866,7 +891,7 @@ void verif::verif_case(Rng & rng, long idx, const std::string & tier) {
             break;
     case 7: emit_random(n, S, ns); break;
     case 8: { double a = kAB[rng.below(7)], b = kAB[rng.below(7)]; if (rng.coin(1, 12)) a = 1.5; if (rng.coin(1, 12)) b = -0.25;
-              size_t nn = n < 2 ? 2 : n; emit_lrp(rng, nn, a, b, (int)rng.range(0, th ? 200 : 40), ns); break; }
+              size_t nn = n < 2 ? 2 : n; emit_lrp(rng, nn, a, b, (int)rng.range(0, th ? 200 : 40), ns); emit_lrpv(rng, nn, (int)rng.range(1, th ? 120 : 30), ns); break; }
     case 9: { g_who = "wolf"; double dW = kDelta[rng.below(7)], dL = kDelta[rng.below(7)], sc = kScale[rng.below(4)];
               emit_wolf(rng, n, S, dW, dL, sc, (int)rng.range(0, th ? 200 : 40), ns); break; }
     case 10: { g_who = "pgaapp"; emit_pgaapp(rng, n, S, kLr[rng.below(6)], kPl[rng.below(4)], (int)rng.range(0, th ? 200 : 30), ns, rng.coin(1, 6)); break; }
